@@ -36,6 +36,15 @@ func New(cmp *enum.Cmp, cs []calls.Call) *Driver {
 // It returns the number of calls evaluated.
 func (d *Driver) One(bits []bool, describe func() interface{}) int {
 	n := 0
+	// The sequence is handed over as callers cut samples out of a longer stream: a window with the next bits of
+	// the stream behind it (capacity > length). The values the caller gets for the following sample are values of
+	// the bits the caller supplied only if the call leaves the stream alone.
+	win := make([]bool, len(bits)+streamTail)
+	copy(win, bits)
+	for k := len(bits); k < len(win); k++ {
+		win[k] = tailBit(k - len(bits))
+	}
+	in := win[:len(bits)]
 	for i := range d.calls {
 		pc := &d.calls[i]
 		if len(bits) < pc.c.Min {
@@ -43,9 +52,21 @@ func (d *Driver) One(bits []bool, describe func() interface{}) int {
 		}
 		n++
 		var got []float64
-		if pv := common.Catch(func() { got = pc.c.Impl(bits) }); pv != nil {
+		if pv := common.Catch(func() { got = pc.c.Impl(in) }); pv != nil {
 			d.Cmp.Panic(pc.c.Name, pv, describe())
 			continue
+		}
+		if at := streamChanged(win, bits); at >= 0 {
+			where := "inside the sequence"
+			if at >= len(bits) {
+				where = fmt.Sprintf("%d bit(s) behind the sequence, in the following sample of the same stream", at-len(bits)+1)
+			}
+			d.Cmp.Ctx.Report(pc.c.Name+"/stream", fmt.Sprintf("%s changed bit %d of the caller's buffer (%s): the next test on that stream is no longer computed from the bits the caller supplied", pc.c.Name, at, where),
+				map[string]interface{}{"call": pc.c.Name, "input": describe(), "changed_bit": at, "sequence_length": len(bits)})
+			copy(win, bits)
+			for k := len(bits); k < len(win); k++ {
+				win[k] = tailBit(k - len(bits))
+			}
 		}
 		want := pc.c.Ref(bits)
 		var slack []float64
@@ -69,6 +90,25 @@ func (d *Driver) One(bits []bool, describe func() interface{}) int {
 		}
 	}
 	return n
+}
+
+const streamTail = 64
+
+func tailBit(k int) bool { return (k*7+3)%5 < 2 }
+
+// streamChanged returns the first position at which the window differs from the sequence / the tail pattern, or -1.
+func streamChanged(win, bits []bool) int {
+	for k := range bits {
+		if win[k] != bits[k] {
+			return k
+		}
+	}
+	for k := len(bits); k < len(win); k++ {
+		if win[k] != tailBit(k-len(bits)) {
+			return k
+		}
+	}
+	return -1
 }
 
 // Names of the calls.
